@@ -102,6 +102,7 @@ def check(run: Run) -> None:
         ("T4", "fields refuse each (point class, system kind) mismatch before evaluating the field function"),
         ("T5", "Vector.rebase / ScalarField.rebase substitute all three base scalars, in opposite directions"),
         ("T6", "scale factors and orientation used by C12 follow from the transformation table"),
+        ("T7", "expression-backed fields substitute every base scalar by the point's coordinate accessor (missing coordinates count as zero)"),
     ]:
         run.rule(rid, text)
     mod, fn, tables, nodes = read_tables(run)
@@ -175,11 +176,15 @@ def check(run: Run) -> None:
                             f"the {kind.lower()} dot product of vectors with {m} and {n} components differs from the Cartesian dot product of the re-expressed vectors: "
                             f"{'raises ' + got.exc if isinstance(got, Raised) else repr(got)[:200]} vs {normalize(want)!r}")
             if n == 0:
-                run.ob("T2", f"scale:{kind}[{m}]")
-                s = var("s")
-                sc = call("scale_vector", s, A)
-                if isinstance(sc, Raised) or not all(same_terms(x, op("mul", s, y)) for x, y in zip(to_cart(kind, sc.components), ca)):
-                    run.violate("T2", f"{AR}:scale_vector:{kind}[{m}]", amod, amod.tree, f"scaling a {kind.lower()} vector with {m} components is not the scaling of the re-expressed Cartesian vector")
+                # a generic scalar and concrete ones of either sign (code may special-case the sign of the factor)
+                from fractions import Fraction as _F
+                for s, sname in ((var("s"), "s"), (num(-2), "-2"), (num(_F(3, 2)), "3/2"), (num(_F(-5, 2)), "-5/2")):
+                    run.ob("T2", f"scale:{kind}[{m}]*{sname}")
+                    A2 = VVal(list(A.components), cs)
+                    sc = call("scale_vector", s, A2)
+                    if isinstance(sc, Raised) or not all(same_terms(x, op("mul", s, y)) for x, y in zip(to_cart(kind, sc.components), ca)):
+                        run.violate("T2", f"{AR}:scale_vector:{kind}[{m}]", amod, amod.tree,
+                                    f"scaling a {kind.lower()} vector with {m} components by {sname} is not the scaling of the re-expressed Cartesian vector")
                 run.ob("T2", f"magnitude:{kind}[{m}]")
                 mg = call("vector_magnitude", A)
                 sq = num(0)
@@ -256,3 +261,19 @@ def check(run: Run) -> None:
                     ok = True
         if not ok:
             run.violate("T5", f"{modname}:{path}:all-scalars", f.mod, f.fn, f"{path} does not substitute every base scalar of the source system (loop over all base_scalars() with an unconditional .subs)")
+    # ---- T7
+    sp = Fn(w, "symplyphysics.core.fields.scalar_field", "_subs_with_point")
+    run.ob("T7", "_subs_with_point")
+    ok = False
+    for lp in [n for n in sp.cfg.stmt_nodes() if n.kind == "for"]:
+        sl = sp.slice(lp, lp.ast.iter)
+        if any(c.endswith("base_scalars") for c in sl.calls) and not has_subscript([lp.ast.iter]) and "zip" not in sl.calls:
+            subs = [c for s_ in lp.ast.body for c in ast.walk(s_) if isinstance(c, ast.Call) and isinstance(c.func, ast.Attribute) and c.func.attr == "subs" and len(c.args) == 2]
+            for c in subs:
+                v = c.args[1]
+                if isinstance(v, ast.Call) and isinstance(v.func, ast.Attribute) and v.func.attr == "coordinate" and dotted(v.func.value) == "point_":
+                    ok = True
+    if not ok:
+        run.violate("T7", "symplyphysics.core.fields.scalar_field:_subs_with_point", sp.mod, sp.fn,
+                    "_subs_with_point no longer replaces every base scalar by point_.coordinate(i) (the accessor that yields 0 for a missing coordinate): a field built from an "
+                    "expression then keeps base scalars of missing coordinates, so the re-expressed field and the original disagree at points given with fewer coordinates")
